@@ -2,7 +2,8 @@
 
    op "eval": {"op":"eval","env":{...},"expr":<PyExpr>}  →
      {"tree": "<canonical form of the built operator tree>",
-      "d1": <evaluate true>, "d0": <evaluate false>, "s1": <evaluateDirect true>, "s0": <evaluateDirect false>}
+      "d1": <evaluate true>, "d0": <evaluate false>, "s1": <evaluateDirect true>, "s0": <evaluateDirect false>,
+      "l1"/"l0": <evaluateList true/false of expr :: extra>  (when "extra" is given)}
    or {"build_err": "<kind>"} when the python expression itself raises. -/
 import PorepyVerif.Common.Wire
 import PorepyVerif.C02.Model
@@ -32,6 +33,17 @@ partial def jFExpr (j : Json) : PV.R FExpr := do
   | "mul" => pure (.mul (← jFExpr (← field j "a")) (← jFExpr (← field j "b")))
   | k => throw s!"unknown function node {k}"
 
+/-- {"f": body} = pp.ad.Function; {"f": body, "diag": [m1] | [m1, m2]} = DiagonalJacobianFunction -/
+def jFunc (j : Json) : PV.R Func := do
+  let body ← jFExpr (← field j "f")
+  match fieldD j "diag" Json.null with
+  | .null => pure (.poly body)
+  | d => do
+    match ← jList jRat d with
+    | [m1] => pure (.diag body m1 none)
+    | [m1, m2] => pure (.diag body m1 (some m2))
+    | _ => throw "diag: one or two multipliers expected"
+
 def jRaw (j : Json) : PV.R Raw := do
   match ← fStr j "k" with
   | "num" => pure (.num (← fRat j "c"))
@@ -53,8 +65,8 @@ partial def jExpr (j : Json) : PV.R PyExpr := do
   | "neg" => pure (.neg (← jExpr (← field j "a")))
   | "pt" => pure (.prevTime (← fNat j "steps") (← jExpr (← field j "a")))
   | "pi" => pure (.prevIter (← fNat j "steps") (← jExpr (← field j "a")))
-  | "f1" => pure (.call1 (← jFExpr (← field j "f")) (← jExpr (← field j "a")))
-  | "f2" => pure (.call2 (← jFExpr (← field j "f")) (← jExpr (← field j "a")) (← jExpr (← field j "b")))
+  | "f1" => pure (.call1 (← jFunc j) (← jExpr (← field j "a")))
+  | "f2" => pure (.call2 (← jFunc j) (← jExpr (← field j "a")) (← jExpr (← field j "b")))
   | k => throw s!"unknown expression node {k}"
 
 def jEnv (j : Json) : PV.R Env := do
@@ -94,6 +106,10 @@ def ofValue : PorepyVerif.C02.R Value → Json
   | .ok (.slicers _) => obj [("kind", Json.str "slicers")]
   | .ok (.ad a) => obj [("kind", Json.str "ad"), ("val", ofRats (vals a)), ("jac", ofList ofRats (a.map (·.g)))]
 
+def ofValues : PorepyVerif.C02.R (List Value) → Json
+  | .error e => err (errName e)
+  | .ok vs => ofList (fun v => ofValue (.ok v)) vs
+
 def run (j : Json) : PV.R Json := do
   match ← fStr j "op" with
   | "eval" =>
@@ -103,9 +119,16 @@ def run (j : Json) : PV.R Json := do
     | .error k => pure (obj [("build_err", Json.str (errName k))])
     | .ok (.raw _) => pure (obj [("build_err", Json.str "raw")])
     | .ok (.tree t) =>
-      pure (obj [("tree", Json.str (treeStr t)),
+      -- further operators evaluated together with the first one in ONE call
+      let extras ← (jList jExpr (fieldD j "extra" (Json.arr #[])))
+      let built := extras.map build
+      let trees := built.filterMap (fun b => match b with | .ok (.tree x) => some x | _ => none)
+      let lists : List (String × Json) :=
+        if trees.length != built.length then [("list_build_err", Json.bool true)]
+        else [("l1", ofValues (evaluateList true env (t :: trees))), ("l0", ofValues (evaluateList false env (t :: trees)))]
+      pure (obj ([("tree", Json.str (treeStr t)),
                  ("d1", ofValue (evaluate true env t)), ("d0", ofValue (evaluate false env t)),
-                 ("s1", ofValue (evaluateDirect true env t)), ("s0", ofValue (evaluateDirect false env t))])
+                 ("s1", ofValue (evaluateDirect true env t)), ("s0", ofValue (evaluateDirect false env t))] ++ lists))
   | o => throw s!"unknown op {o}"
 
 def main : IO Unit := runPure run
